@@ -1,5 +1,5 @@
 (* GENERATED on every run by harness/vlib/py2coq.py (symbolic execution of the Python source). Do not edit.
-   sources: /var/tmp/seed/C02-6/wt/commonroad/scenario/lanelet.py sha1=6b97a2da41d1 *)
+   sources: /repo/commonroad/scenario/lanelet.py sha1=6b97a2da41d1 *)
 From Coq Require Import QArith ZArith Bool List String.
 Import ListNotations.
 From CR Require Import Base.QMod Base.PyRes Model.ArcLen.
